@@ -455,8 +455,9 @@ Fixpoint limit_size_loop (fuel : nat) (p : pool) (max_size : N) : option pool :=
 Definition limit_size (p : pool) (max_size : N) : option pool :=
   limit_size_loop (S (length (p_entries p))) p max_size.
 
-Definition remove_expired (p : pool) (cutoff : N) : option pool :=
-  remove_entries p (map fst (filter (fun kv => tx_ts (e_tx (snd kv)) <? cutoff) (p_entries p))).
+Definition expired_ids (p : pool) (cutoff : N) : list N :=
+  map fst (filter (fun kv => tx_ts (e_tx (snd kv)) <? cutoff) (p_entries p)).
+Definition remove_expired (p : pool) (cutoff : N) : option pool := remove_entries p (expired_ids p cutoff).
 
 Fixpoint ins_by_count (x : N * N * entry) (l : list (N * N * entry)) : list (N * N * entry) :=
   match l with
